@@ -239,7 +239,7 @@ def check_c09(pid, tier, seed, replay=None):
         C.FILES[key] = ' '.join(toks)
         extra_files[key] = C.FILES[key]
         scs.append(fam_linear(key, name=f'chain{i}-{k}links', lens=(4096,) if i%3 else (1,333,100000)))
-    for f in ['B','C','D','E','I','J','N','P','Q','V','X']:
+    for f in ['B','C','D','E','I','J','N','P','Q','V','X','Y']:
         scs.append(fam_linear(f, name=f'chain-{f}'))
     # file ids collide across scenarios only if they share a script: pin each generated file to its own id per bucket by unique ids modulo 40
     res = run_batch(pid, tier, scs, bindir, nproc=16)
@@ -560,6 +560,14 @@ def check_c03(pid, tier, seed, replay=None):
         s.pre = pre
         if rng.random() < 0.2:
             s.files.append('T'); s.lines.insert(2, f'open 1 {fid("T")} seek'); s.lines.insert(3, 'xl 1 0'); s.lines.insert(4, 'xl 0 1'); s.lines.insert(-2, 'clear 1')
+        scs.append(s)
+    # undamaged chains (odd link lengths, 0/1-sample links, extreme serial numbers) under the same random call mix with half rate switched on early:
+    # termination and memory safety must not depend on the stream being damaged
+    for i in range(48 if quick else 600):
+        f = ['N','C','I','B','X','Y'][i % 6]
+        s = fam_damaged(rng, f, f'intact{i}-{f}', 'seek')
+        s.tags.discard('damaged'); s.family = 'intact-halfrate'
+        s.lines.insert(2, 'hr 0 1')
         scs.append(s)
     res = run_batch(pid, tier, scs, bindir, nproc=16)
     rules = SAFETY_RULES | {'ReadUndocumentedCode','SeekUndocumentedCode','OpenUndocumentedCode','HalfRateUndocumentedCode','CrosslapUndocumentedCode',
